@@ -45,6 +45,11 @@ META = {
 }
 
 
+SHARE_PROFILE = {"driver_cmp": True, "aux_share": True, "driver": True, "aux_policy": "clean",
+                 "aux_modes": ["plain", "plain", "cond"], "auxes": (1, 3), "frames": (2, 6),
+                 "kinds": {"go": 7, "aux": 4}, "needs": {"cmp": 8}}
+
+
 def outcome_of(case):
     r = run_case(case)
     fails = []
@@ -131,7 +136,10 @@ def work(shard, seed, tier):
             fails, nt, classes, r = outcome_of({"prog": prog})
             return Outcome(fails, nontrivial=nt, classes=classes, key=prog_key(prog),
                            sample={"script": r["text"], "ticks_run": r["real"].get("nticks")})
-        campaign(acc, gen.program(), execute, shard["count"], seed * 1000 + shard["i"],
+        # odd shards: every auxiliary really used, and plain originals listed by two frames of their
+        # owner (direct transitions between two main frames of the same original)
+        strat = gen.program(SHARE_PROFILE) if shard["i"] % 2 else gen.program()
+        campaign(acc, strat, execute, shard["count"], seed * 1000 + shard["i"],
                  to_case=lambda p: {"prog": p}, budget=budget, shrink_examples=300)
         return acc
     names, per = micro_space(shard["frames"])
